@@ -1,9 +1,9 @@
-(* Crash/ProofsCatchUp.v — the last sentence of C13: "... and to the same finalized checkpoint once one further epoch has
-   committed".  A node restarted from the cut between a block's quality record and its finalized record holds the previous
-   finalized block (an ancestor of the uninterrupted node's).  Along the resumed stream the two stores agree under every key
-   but the finalized record, the lagging finalized block stays an ancestor-or-equal of the other one, and at the first import
-   at which the uninterrupted node's finalized block moves, the resumed node writes the same finalized record: from there on
-   the stores are equivalent under every key. *)
+(* Crash/ProofsCatchUp.v — a node whose finalized record lags behind (it holds an ancestor of the finalized block another
+   node holds, all other keys equal) and what imports do to the pair.  Before the F13 repair (/repo 38d50ce: quality and
+   finalized record in one batch) a crash between the two separate writes produced such a node; the lemmas say what such
+   a node converges to in the best case (no block refused by the up-to-date node's finality check) and the checked
+   counter-example (Crash/ExamplesCatchUp.v) shows what goes wrong otherwise — the reason for the repair.
+   With the repair, Crash/ProofsResumeAll.v resume_converges needs none of this. *)
 From Coq Require Import List NArith Bool Lia Permutation.
 From Verif Require Import Crash.Model Crash.ProofsStore Crash.ProofsInv Crash.ProofsImport Crash.ProofsCrash
   Crash.ProofsEqv Crash.ProofsShape Crash.ProofsResumeAll Crash.ProofsFinalized Crash.ProofsQuality.
@@ -349,17 +349,20 @@ Proof.
   rewrite Ef. apply desc_refl. apply finalized_stored; auto.
 Qed.
 
-Lemma commit_writes_fin c s3 id parent just comm :
-  writes_of_steps (commit_steps c s3 id parent just comm) =
-  if is_storepoint (c_L c) (num_of id) then
-    match quality_of c s3 parent (num_of id) just with
-    | None => []
-    | Some q => [Put (KQuality id) (VNum q)] ::
-                fin_writes c id q (comm && (1 <? q)) (apply_batch s3 [Put (KQuality id) (VNum q)]) (finalized c s3)
-    end
-  else [].
+(* the store after the commit batch is the store after the quality record followed by the finalized part *)
+Lemma commit_apply_split c s3 id parent just comm st :
+  apply_writes st (writes_of_steps (commit_steps c s3 id parent just comm)) =
+  apply_writes st
+   (if is_storepoint (c_L c) (num_of id) then
+      match quality_of c s3 parent (num_of id) just with
+      | None => []
+      | Some q => [Put (KQuality id) (VNum q)] ::
+                  fin_writes c id q (comm && (1 <? q)) (apply_batch s3 [Put (KQuality id) (VNum q)]) (finalized c s3)
+      end
+    else []).
 Proof.
-  rewrite commit_unfold. reflexivity.
+  rewrite commit_unfold. unfold fin_writes. destruct (is_storepoint _ _); auto. destruct (quality_of _ _ _ _ _) as [q|]; auto.
+  destruct (comm && (1 <? q) && _); auto. destruct (find_checkpoint _ _ _ _ _); auto.
 Qed.
 
 Lemma storepoint_epoch L n : 0 < L -> is_storepoint L n = true -> n = n / L * L + L - 1.
@@ -412,7 +415,7 @@ Proof.
     { intros i smi Ei. rewrite S3. destruct (N.eq_dec i (b_id b)) as [->|]; auto. unfold stored in Hns. rewrite Ei in Hns. discriminate. }
     assert (D3 : desc u3 (finalized c r) (finalized c u)) by (eapply desc_mono; eauto).
     assert (Hb3 : stored u3 (b_id b) = true) by apply s3_stored_b.
-    rewrite !commit_writes_fin. destruct (is_storepoint (c_L c) (num_of (b_id b))) eqn:Hsp.
+    rewrite !commit_apply_split. destruct (is_storepoint (c_L c) (num_of (b_id b))) eqn:Hsp.
     2:{ cbn [apply_writes fold_left]. split; [constructor; rewrite ?Fu3, ?Fr3; auto|]. intro X. rewrite Fu3 in X. congruence. }
     rewrite (nf_quality_of r3 u3 NF3).
     destruct (quality_of c u3 (b_parent b) (num_of (b_id b)) (b_just b)) as [q|] eqn:Eq.
@@ -481,94 +484,3 @@ Proof.
     + apply eqv_run. apply E1. auto.
 Qed.
 
-(* C13, last sentence: after ANY cut, restart and resumption of the stream, the store agrees with the uninterrupted run's
-   under every key but the finalized record, the finalized block it holds is the uninterrupted node's or an ancestor of it,
-   and as soon as the uninterrupted node's finalized block has moved past the one it had after the interrupted import, the
-   two stores are equivalent under EVERY key (the finalized record included).  Premise besides those of
-   resume_converges_except: no block of the stream is refused by the uninterrupted node's finality check (errBFTRejected) —
-   a node whose finalized record lags accepts a block conflicting with the newer finalized block, the other one does not. *)
-Theorem resume_catches_up c s0 hist k i :
-  wf_cfg2 c -> Inv2 c s0 -> InvQ c s0 -> wf_hist c s0 hist -> no_bft_reject c s0 hist = true ->
-  cut_in_import c s0 hist k i ->
-  exists r, resume c true (crash c s0 hist k) (skipn i hist) = Some r /\
-    Lag c r (run c s0 hist) /\
-    (finalized c (run c s0 hist) <> finalized c (run c s0 (firstn (S i) hist)) -> eqv r (run c s0 hist)).
-Proof.
-  intros Hc I0 Q0 Hw Hn Hcut.
-  assert (If : Inv2 c (run c s0 hist)) by (apply run_inv2; auto).
-  assert (Qf : InvQ c (run c s0 hist)) by (apply run_invq; auto).
-  destruct (resume_converges_except c s0 hist k i Hc I0 Hw Hcut) as (r & Hr & [He|(b & rest & Esk & f & Er & Hnf & Hfin & Hput)]).
-  - exists r. split; auto. split; [|intros _; exact He].
-    apply eqv_lag; auto. { apply Hc. } apply (i2_inv _ _ If).
-  - exists r. split; auto.
-    set (si := run c s0 (firstn i hist)) in *.
-    assert (Ehist : hist = firstn i hist ++ b :: rest) by (rewrite <- Esk; symmetry; apply firstn_skipn).
-    assert (Hwi : wf_hist c s0 (firstn i hist) /\ wf_hist c si (b :: rest)) by (apply wf_hist_app; rewrite <- Ehist; auto).
-    destruct Hwi as [Hw1 [Hwb Hwr]].
-    assert (Hni : no_bft_reject c si (b :: rest) = true) by (apply (no_bft_reject_app c (firstn i hist) s0); rewrite <- Ehist; auto).
-    cbn [no_bft_reject] in Hni. apply andb_true_iff in Hni. destruct Hni as [_ Hnr].
-    assert (Ii : Inv2 c si) by (apply run_inv2; auto).
-    assert (Qi : InvQ c si) by (apply run_invq; auto).
-    set (u1 := run1 c si b) in *.
-    assert (I1 : Inv2 c u1) by (apply run1_inv2; auto).
-    assert (Q1 : InvQ c u1) by (apply run1_invq; auto).
-    assert (ES : firstn (S i) hist = firstn i hist ++ [b]) by (eapply firstn_S_skipn; eauto).
-    assert (Eu1 : run c s0 (firstn (S i) hist) = u1) by (rewrite ES, run_app; reflexivity).
-    assert (Erun : run c u1 rest = run c s0 hist).
-    { rewrite Ehist at 1. rewrite run_app. reflexivity. }
-    assert (Fs' : finalized c (crash c s0 hist k) = finalized c si) by (unfold finalized, get_id; rewrite Hfin; reflexivity).
-    assert (L0 : Lag c (crash c s0 hist k) u1).
-    { constructor.
-      - exact Hnf.
-      - rewrite Fs'. apply (finalized_moves_forward c si b); auto. { apply Hc. } apply (i2_inv _ _ Ii).
-      - rewrite Fs'. apply (iq_al _ _ Qi). }
-    destruct (lag_run c rest (crash c s0 hist k) u1 Hc I1 Q1 Hwr Hnr L0) as [L E].
-    rewrite Er, Eu1, <- Erun. split; auto.
-Qed.
-
-(* what Lag means for the observations the property names *)
-Corollary resume_catches_up_observations c s0 hist k i :
-  wf_cfg2 c -> Inv2 c s0 -> InvQ c s0 -> wf_hist c s0 hist -> no_bft_reject c s0 hist = true ->
-  cut_in_import c s0 hist k i ->
-  exists r, resume c true (crash c s0 hist k) (skipn i hist) = Some r /\
-    let u := run c s0 hist in
-    get_id r KBest = get_id u KBest /\ (forall id, stored r id = stored u id) /\
-    (forall id, get_quality r id = get_quality u id) /\
-    anc u (finalized c u) (num_of (finalized c r)) = Some (finalized c r) /\
-    (finalized c u <> finalized c (run c s0 (firstn (S i) hist)) -> finalized c r = finalized c u).
-Proof.
-  intros Hc I0 Q0 Hw Hn Hcut.
-  destruct (resume_catches_up c s0 hist k i Hc I0 Q0 Hw Hn Hcut) as (r & Hr & [NF D _] & E).
-  exists r. split; auto. cbn zeta. repeat split.
-  - apply nf_best; auto.
-  - intro; apply nf_stored; auto.
-  - intro; apply nf_get_quality; auto.
-  - exact D.
-  - intro X. apply na_finalized, eqv_eqv_na. auto.
-Qed.
-
-(* transfer: whatever holds of the uninterrupted node's store and does not depend on the finalized record (stored set, best
-   pointer, quality records = vote tallies, every block's data) holds of the resumed node's store; whatever holds of it at
-   all holds of the resumed node's once the uninterrupted node's finalized block has moved *)
-Corollary resumed_node_inherits c s0 hist k i (P : store -> Prop) :
-  wf_cfg2 c -> Inv2 c s0 -> InvQ c s0 -> wf_hist c s0 hist -> no_bft_reject c s0 hist = true ->
-  cut_in_import c s0 hist k i ->
-  (forall a b, eqv_nf a b -> P b -> P a) -> P (run c s0 hist) ->
-  exists r, resume c true (crash c s0 hist k) (skipn i hist) = Some r /\ P r.
-Proof.
-  intros Hc I0 Q0 Hw Hn Hcut HP Hrun.
-  destruct (resume_catches_up c s0 hist k i Hc I0 Q0 Hw Hn Hcut) as (r & Hr & [NF _ _] & _).
-  exists r. split; auto. eapply HP; eauto.
-Qed.
-
-Corollary resumed_node_inherits_all c s0 hist k i (P : store -> Prop) :
-  wf_cfg2 c -> Inv2 c s0 -> InvQ c s0 -> wf_hist c s0 hist -> no_bft_reject c s0 hist = true ->
-  cut_in_import c s0 hist k i ->
-  finalized c (run c s0 hist) <> finalized c (run c s0 (firstn (S i) hist)) ->
-  (forall a b, eqv a b -> P b -> P a) -> P (run c s0 hist) ->
-  exists r, resume c true (crash c s0 hist k) (skipn i hist) = Some r /\ P r.
-Proof.
-  intros Hc I0 Q0 Hw Hn Hcut Hmv HP Hrun.
-  destruct (resume_catches_up c s0 hist k i Hc I0 Q0 Hw Hn Hcut) as (r & Hr & _ & E).
-  exists r. split; auto. eapply HP; eauto.
-Qed.
